@@ -472,6 +472,28 @@ def no_replacement(rep, f, c):
                         x = b.succ[x][0]
                     if x == bi:
                         good_some = True
+    # the same written with a combinator: for_label(label).filter(|&e| e != REPLACEMENT)
+    if not some_blocks and calls:
+        filt = [(bi, t) for bi, t in b.calls() if (b.callee(t) or '').endswith('Option::<T>::filter') and t['dest']['l'] == 0 and not t['dest']['p']]
+        if len(filt) == 1 and strip_ref(r.operand(filt[0][1]['args'][0])) == res and len([bi for bi, t in b.calls()]) == 2:
+            for cname, cb in f.bodies.items():
+                if cname.startswith(fn + '::{closure#') and cb.arg_count == 2:
+                    rc = Resolver(cb)
+                    ds0 = cb.defs.get(0, [])
+                    e0 = rc.call(ds0[0][3], ds0[0][0], 0) if len(ds0) == 1 and ds0[0][2] == 'call' else (rc.rvalue(ds0[0][3]['rv']) if len(ds0) == 1 else None)
+                    neg = False
+                    while e0 is not None and e0[0] == 'un' and e0[1] == 'Not':
+                        e0, neg = e0[2], not neg
+                    if e0 is not None and e0[0] == 'call' and (e0[1] or '').endswith(('::ne', '::eq')) and ((e0[1].endswith('::ne')) != neg):
+                        def base(x):
+                            x = strip_ref(x)
+                            while x[0] in ('deref', 'ref'):
+                                x = strip_ref(x[1])
+                            return x
+                        args = [base(a) for a in e0[2]]
+                        if ('loc', 2) in args and any('REPLACEMENT' in str(a) and a[0] == 'cptr' for a in args):
+                            good_some = True
+                            some_blocks = [(filt[0][0], None)]
     # the static REPLACEMENT points at REPLACEMENT_INIT
     rp = f.statics.get('REPLACEMENT')
     rp_ok = bool(rp) and any(rl['to'].get('static') == 'REPLACEMENT_INIT' for rl in rp['alloc']['relocs'])
